@@ -100,12 +100,13 @@ def validate_chunk(k, sessions, props, work, timeout):
     hung = []
     live = list(range(len(sessions)))
     while True:
-        done = execute(script, trace, k)
-        if done is None:
+        res = execute(script, trace, k)
+        if res is None:
             break
+        done, how = res
         si_local = max(i for i, st in enumerate(starts) if st <= done + 1)
         op = sessions[live[si_local]][done + 1 - starts[si_local]].get("op", "?")
-        hung.append((live[si_local], done + 1 - starts[si_local], op, "hang"))
+        hung.append((live[si_local], done + 1 - starts[si_local], op, how))
         if len(hung) > 8:
             raise ToolError(f"more than 8 operations of chunk {k} did not return within the time limit")
         del live[si_local]
@@ -127,19 +128,50 @@ def validate_chunk(k, sessions, props, work, timeout):
 EXEC_TIMEOUT = int(os.environ.get("VERIF_EXEC_TIMEOUT", "300"))
 
 
+EXEC_MEM = int(os.environ.get("VERIF_EXEC_MEM_GB", "8")) << 30
+
+
+def _exec_limits():
+    # an operation of the crate that allocates without bound (a loop that never ends while pushing to a vector)
+    # must end in an allocation failure of the executor, not in the machine's out-of-memory killer
+    import resource
+    resource.setrlimit(resource.RLIMIT_AS, (EXEC_MEM, EXEC_MEM))
+
+
+def _lines(path):
+    try:
+        with open(path) as f:
+            return sum(1 for _ in f)
+    except FileNotFoundError:
+        return 0
+
+
 def execute(script, trace, k=0):
     """run a script on the real crate; the recorded trace is written to `trace`.
-    returns None when every operation returned, else the number of operations that completed before one
-    did not return within the time limit"""
-    try:
-        r = subprocess.run([RTCPV, "exec", script, trace], stdout=subprocess.PIPE, stderr=subprocess.PIPE, text=True,
-                           timeout=EXEC_TIMEOUT)
-    except subprocess.TimeoutExpired:
-        with open(trace) as f:
-            return sum(1 for _ in f)
-    if r.returncode != 0:
-        raise ToolError(f"executor failed on chunk {k} (exit {r.returncode}): {r.stderr[-2000:]}")
-    return None
+    returns None when every operation returned; else (n, how): the number of operations that completed before one
+    did not return within the time limit (how = "hang") or took the whole process down - stack overflow, allocation
+    failure, abort: the executor catches unwinding panics itself, so a death by signal is the operation's doing
+    (how = "crash"; only if a second run dies at exactly the same operation, otherwise a tool error)"""
+    def once():
+        try:
+            r = subprocess.run([RTCPV, "exec", script, trace], stdout=subprocess.PIPE, stderr=subprocess.PIPE, text=True,
+                               timeout=EXEC_TIMEOUT, preexec_fn=_exec_limits)
+        except subprocess.TimeoutExpired:
+            return ("hang", _lines(trace), "")
+        if r.returncode < 0 or r.returncode in (134, 139):
+            return ("crash", _lines(trace), f"exit {r.returncode}: {r.stderr[-500:]}")
+        if r.returncode != 0:
+            raise ToolError(f"executor failed on chunk {k} (exit {r.returncode}): {r.stderr[-2000:]}")
+        return None
+    a = once()
+    if a is None:
+        return None
+    if a[0] == "hang":
+        return (a[1], "hang")
+    b = once()
+    if b is None or b[0] != "crash" or b[1] != a[1]:
+        raise ToolError(f"executor died on chunk {k} ({a[2]}) but not reproducibly at the same operation ({a[1]} vs {b and b[1]})")
+    return (a[1], "crash")
 
 
 def tlc_validate(trace, n, props, work, k, timeout):
